@@ -406,6 +406,32 @@ func (h *H) csvCase() {
 		} else if len(hr.Fields) == 1 && len(hr.Fields[0].V) == 0 {
 			hr.Fields[0].Q = true
 		}
+		// a header line on which the csv decoder itself fails (whether or not the names would
+		// match): the first error must be the fatal one, no record may follow
+		if !replace && r.Chance(0.12) {
+			j := r.Pick(len(hr.Fields))
+			var raw []byte
+			kind := r.Pick(2)
+			for i, f := range hr.Fields {
+				if i > 0 {
+					raw = append(raw, enc...)
+				}
+				cell := encRow(enc, erow{Fields: []efield{f}})
+				cell = cell[:len(cell)-1]
+				if i == j {
+					switch {
+					case kind == 0 && !f.Q && len(f.V) > 0:
+						cell = append(append([]byte{}, f.V...), '"', 'x') // a,b"x
+						mismatch += "+bare-quote"
+					default:
+						cell = append(append(append([]byte{'"'}, bytes.ReplaceAll(f.V, []byte{'"'}, []byte{'"', '"'})...), '"'), 'x') // "a"x,b
+						mismatch += "+text-after-quote"
+					}
+				}
+				raw = append(raw, cell...)
+			}
+			hr.Raw = raw
+		}
 		pre = append(pre, hr)
 		line++
 	}
@@ -667,7 +693,7 @@ func (h *H) genPlan() plan {
 		p.sel = []colSel{{}, {LineIndex: intp(1)}, {LineIndex: intp(2)}, {LinePat: &pat{Prefix: true, Lit: "BB"}}}
 	default: // R-row records, then up to R-1 one-row trailer records: EOF inside a record leaves
 		// lines in the buffer that are then popped one at a time (index shifting of the rest)
-		rows := r.Between(2, 3)
+		rows := r.Between(2, 5)
 		tailTarget := r.Chance(0.5)
 		p.decls = []tdecl{
 			{Name: "pair", Rows: intp(rows), Target: !tailTarget},
@@ -684,7 +710,8 @@ func (h *H) genPlan() plan {
 			p.insts = append(p.insts, instance{decl: 1, tags: []string{"TL"}})
 		}
 		p.sel = []colSel{{}, {LineIndex: intp(1)}, {LineIndex: intp(2)}, {LineIndex: intp(3)},
-			{LinePat: &pat{Prefix: true, Lit: "P2"}}, {LinePat: &pat{Prefix: true, Lit: "P1"}}, {LinePat: &pat{Prefix: true, Lit: "TL"}}}
+			{LineIndex: intp(4)}, {LineIndex: intp(5)},
+			{LinePat: &pat{Prefix: true, Lit: "P2"}}, {LinePat: &pat{Prefix: true, Lit: "P1"}}, {LinePat: &pat{Prefix: true, Lit: "P4"}}, {LinePat: &pat{Prefix: true, Lit: "TL"}}}
 	}
 	// the target is the first declaration unless one says is_target (validation's rule)
 	seen := false
@@ -954,6 +981,15 @@ func (h *H) fixed2Case() {
 	long := r.Chance(0.04)
 	cols := h.fixedCols(&p, width, true, long)
 	input, nlines, ntf := h.fixedLines(&p, width, long)
+	if long {
+		h.sum.Hist("line>4096")
+	}
+	h.fixed2Finish(&p, cols, input, nlines, ntf(cols), "fixedlength2", r.Chance(0.12))
+}
+
+// fixed2Finish: schema, expected deliveries from the logical lines, run, judge, Coq case.
+func (h *H) fixed2Finish(p *plan, cols []fcol, input []byte, nlines int, nontrivial bool, kind string, damage bool) {
+	r := h.r
 	var envs []map[string]interface{}
 	var coqDecls []string
 	for i, d := range p.decls {
@@ -987,12 +1023,11 @@ func (h *H) fixed2Case() {
 		exp = append(exp, o)
 	}
 	exp = append(exp, outcome{Kind: "eof"})
-	kind := "fixedlength2"
 	damaged := ""
-	if r.Chance(0.12) {
+	if damage {
 		input, damaged = vh.Mutate(r, input)
 		if damaged != "wellformed" {
-			exp, kind = nil, "fixedlength2-damaged"
+			exp, kind = nil, kind+"-damaged"
 		}
 	}
 	desc := map[string]interface{}{"stream": kind, "schema": string(schema), "input_hex": hex.EncodeToString(input), "damage": damaged}
@@ -1005,14 +1040,102 @@ func (h *H) fixed2Case() {
 	if len(input) > 4096 {
 		h.sum.Hist("input>4096")
 	}
-	if long {
-		h.sum.Hist("line>4096")
-	}
-	h.judge(kind, desc, obs, exp, ntf(cols))
+	h.judge(kind, desc, obs, exp, nontrivial)
 	term := fmt.Sprintf("CaseFixed2 %s %s %s", vh.CoqList(coqDecls), chex(input), coqOuts(obs))
 	desc["observed"] = outStrings(obs)
 	h.cw.Add(term, desc)
 	h.sum.Sample(desc)
+}
+
+// fixed2AlignFamilies: long inputs (well over the 4096-byte bufio buffer) of multi-line envelopes
+// (3 and 5 rows; header/footer envelopes of 3..6 lines) whose lines have varying lengths, behind a
+// leading filler line whose length is swept so that every refill boundary of the buffer moves
+// through an envelope line by line: an earlier line of an envelope sits entirely inside the
+// buffer while a later line of the same envelope straddles its end - the situation in which a
+// line handed out as a reference into the buffer is overwritten unless the reader copied it
+// (upstream issue 213; fixed2_no_poison).  Runs in every check; columns read every line of the
+// envelope, so a corrupted earlier line shows up as a wrong column value.
+func (h *H) fixed2AlignFamilies() {
+	r := h.r
+	for fam := 0; fam < 3; fam++ {
+		var p plan
+		hdr := tdecl{Name: "hdr", Header: &pat{Prefix: true, Lit: "H0"}, Min: intp(0), Max: intp(1)}
+		var maxLines int
+		nEnv := 0
+		switch fam {
+		case 0:
+			p.decls = []tdecl{hdr, {Name: "rec3", Rows: intp(3), Target: true}}
+			maxLines, nEnv = 3, 70
+		case 1:
+			p.decls = []tdecl{hdr, {Name: "rec5", Rows: intp(5), Target: true}}
+			maxLines, nEnv = 5, 40
+		default:
+			p.decls = []tdecl{hdr, {Name: "body", Header: &pat{Prefix: true, Lit: "BG"}, Footer: &pat{Prefix: true, Lit: "EN"}, Target: true}}
+			maxLines, nEnv = 6, 45
+		}
+		p.tgt = 1
+		// columns: two per line position, near the start of the line (so they exist on every line)
+		var cols []fcol
+		for k := 1; k <= maxLines; k++ {
+			cols = append(cols, fcol{Name: fmt.Sprintf("l%d", k), Start: r.Between(1, 6), Len: r.Between(8, 14), LineIndex: intp(k)})
+		}
+		if fam == 2 {
+			cols = append(cols, fcol{Name: "foot", Start: 1, Len: 12, LinePat: &pat{Prefix: true, Lit: "EN"}},
+				fcol{Name: "mid", Start: 2, Len: 10, LinePat: &pat{Prefix: true, Lit: "M1"}})
+		}
+		// the envelopes (fixed for the family)
+		var body []byte
+		nlines := 1
+		firstLen := 0
+		for e := 0; e < nEnv; e++ {
+			var tags []string
+			switch fam {
+			case 0:
+				tags = []string{"T1", "T2", "T3"}
+			case 1:
+				tags = []string{"T1", "T2", "T3", "T4", "T5"}
+			default:
+				tags = []string{"BG"}
+				for k, m := 0, r.Between(1, 4); k < m; k++ {
+					tags = append(tags, "M1")
+				}
+				tags = append(tags, "EN")
+			}
+			in := instance{decl: 1, tags: tags}
+			start := len(body)
+			for _, tag := range tags {
+				us := append(tagUnits(fmt.Sprintf("%s%04d", tag, e)), genUnits(r, r.Between(10, 70), false)...)
+				in.lines = append(in.lines, lline{units: us})
+				body = append(body, joinUnits(us)...)
+				body = append(body, eol(r.Chance(0.2))...)
+				nlines++
+			}
+			if e == 0 {
+				firstLen = len(body) - start
+			}
+			p.insts = append(p.insts, in)
+		}
+		// sweep the filler so that the first refill boundary (and with it the later ones) moves
+		// through one whole envelope
+		step := firstLen/28 + 1
+		base := r.Between(0, 40)
+		for f := 0; f <= firstLen+step; f += step {
+			filler := append(tagUnits("H0"), genUnitsASCII(base+f)...)
+			pp := p
+			pp.insts = append([]instance{{decl: 0, tags: []string{"H0"}, lines: []lline{{units: filler}}}}, p.insts...)
+			input := append(append(joinUnits(filler), '\n'), body...)
+			h.sum.Hist("fixed2-align-family")
+			h.fixed2Finish(&pp, cols, input, nlines, true, "fixedlength2", false)
+		}
+	}
+}
+
+func genUnitsASCII(n int) []unit {
+	us := make([]unit, n)
+	for i := range us {
+		us[i] = unit{byte('a' + i%26)}
+	}
+	return us
 }
 
 // ---- old fixed-length ------------------------------------------------------------------------------------------------
@@ -1265,7 +1388,11 @@ func main() {
 			h.replayFile(f, false)
 		}
 	}
-	total := o.Count(4000, 100000)
+	total := o.Count(3000, 100000)
+	h.cw.PerFile = 14 // the alignment families are heavy cases: spread them over several shards
+	h.fixed2AlignFamilies()
+	h.cw.Flush()
+	h.cw.PerFile = 200
 	for c := 0; c < total; c++ {
 		switch k := h.r.Pick(10); {
 		case k < 2:
